@@ -80,6 +80,20 @@ func Setup() *Env {
 	return e
 }
 
+// outDir is /verif/<kind> for runs against /repo. Runs against another tree (VERIF_REPO, used to
+// try the checks on mutated copies) must not overwrite the committed evidence: they write to
+// VERIF_OUT (default: the scratch directory).
+func (e *Env) outDir(kind string) string {
+	if e.Repo == "/repo" && os.Getenv("VERIF_OUT") == "" {
+		return filepath.Join(e.Verif, kind)
+	}
+	base := os.Getenv("VERIF_OUT")
+	if base == "" {
+		base = e.Scratch
+	}
+	return filepath.Join(base, kind)
+}
+
 func (e *Env) Thorough() bool { return e.Tier == "thorough" }
 
 // Pick returns q in the quick tier and t in the thorough tier.
@@ -413,7 +427,7 @@ func (r *Report) Finish() {
 		}
 		newV++
 		h := sha1.Sum([]byte(k))
-		dir := filepath.Join(e.Verif, "replays", e.ID)
+		dir := filepath.Join(e.outDir("replays"), e.ID)
 		os.MkdirAll(dir, 0o755)
 		path := filepath.Join(dir, hex.EncodeToString(h[:6])+".json")
 		b, _ := json.MarshalIndent(map[string]interface{}{"property": e.ID, "key": k, "count": v.Count, "case": v.Detail,
@@ -446,8 +460,8 @@ func (r *Report) Finish() {
 			"assumptions": r.Assumptions, "wall_s": time.Since(e.Start).Seconds(), "violations": newV,
 		}
 		b, _ := json.MarshalIndent(ev, "", " ")
-		os.MkdirAll(filepath.Join(e.Verif, "evidence"), 0o755)
-		if err := os.WriteFile(filepath.Join(e.Verif, "evidence", e.ID+".json"), append(b, '\n'), 0o644); err != nil {
+		os.MkdirAll(e.outDir("evidence"), 0o755)
+		if err := os.WriteFile(filepath.Join(e.outDir("evidence"), e.ID+".json"), append(b, '\n'), 0o644); err != nil {
 			Inconclusive("cannot write evidence: %v", err)
 		}
 	}
